@@ -23,11 +23,14 @@ def creds_variants():
     """(label, dict creds, RequestContext kwargs) for the 8 presence combinations x system spelling."""
     out = []
     for sysv, dom, proj in itertools.product([False, True], repeat=3):
-        for spelling in (('system', 'system_scope') if sysv else ('-',)):
+        for spelling in (('system', 'system_scope', 'system_scope+None', 'system_scope+empty') if sysv else ('-',)):
             d = {'roles': ['r0'], 'user_id': 'u'}
             kw = {'roles': ['r0'], 'user_id': 'u'}
             if sysv:
-                d[spelling] = 'all'
+                d[spelling.split('+')[0]] = 'all'
+                if '+' in spelling:
+                    # a `system` key that is present but empty next to `system_scope` (seeded change C08-A8: setdefault)
+                    d['system'] = None if spelling.endswith('None') else ''
                 kw['system_scope'] = 'all'
             if dom:
                 d['domain_id'] = 'dom'
